@@ -209,8 +209,13 @@ def rule_asm(ctx):
     ctx.require(nreads >= 1, "C14.ASM: readAsync call of AsyncStateMachine not found")
     for nm, val in (("wantsReadEvent", 0), ("wantsWriteEvent", 1)):
         f = cls.methods[nm]
-        ret = [n for n in own_nodes(f.node) if isinstance(n, ast.Return) and isinstance(n.value, ast.Compare)]
-        ok = len(ret) == 1 and norm(ret[0].value) == "self.result == %d" % val
+        # decided by evaluating the accessor's body for each indication (nothing is run)
+        from ..condeval import _call, Rec, Unknown
+        try:
+            got = {r: _call(f, [Rec(result=r)], {"__index__": ctx.index}) for r in (None, 0, 1, 2)}
+            ok = got[None] is None and all(bool(got[r]) == (r == val) for r in (0, 1, 2))
+        except (Unknown, TypeError, AttributeError):
+            ok = False
         ctx.check(R, ok, f.qname, "%s reports result == %d" % (nm, val),
                   "%s must report exactly the indication %d" % (nm, val), f.loc())
 
